@@ -124,6 +124,15 @@ def handle : Handler := fun op args =>
     if kind = "legacy" then some (showRes (sighashF c tx us script sigs idx ht))
     else if kind = "witness" then some (showRes (witnessSighashF c tx us script sigs idx ht))
     else none
+  -- the same closures called with a VM whose `begin_code_hash` is `begin` (the position after the last executed
+  -- OP_CODESEPARATOR): the script code is `vm.script[vm.begin_code_hash:]`
+  | "c04_sighash_fb", [c, kind, tx, us, idx, script, begin, sigs, ht] => do
+    let c ← parseCoin? c
+    let tx ← parseTx? tx; let us ← parseUnspents? us; let script ← parseBytes? script; let sigs ← parseSigs? sigs
+    let idx ← parseNat? idx; let ht ← parseNat? ht; let b ← parseNat? begin
+    if kind = "legacy" then some (showRes (sighashF c tx us (script.drop b) sigs idx ht))
+    else if kind = "witness" then some (showRes (witnessSighashF c tx us (script.drop b) sigs idx ht))
+    else none
   | "c04_sighash_f_spec", [c, kind, tx, us, idx, script, sigs, ht] => do
     let c ← parseCoin? c
     let tx ← parseTx? tx; let us ← parseUnspents? us; let script ← parseBytes? script; let sigs ← parseSigs? sigs
